@@ -10,6 +10,10 @@ REALS = ("ValueType is modelled by exact reals (type R): every 'equals its defin
          "the size and growth of IEEE rounding error is NOT decided by this check")
 
 UNITS = {
+    "compose_ma": dict(tpl="compose_ma.rs.tpl", doc="methods::{TRIMA, HMA} by composition of the SMA/WMA contracts"),
+    "st_dev": dict(tpl="st_dev.rs.tpl", doc="methods::StDev"),
+    "vwma": dict(tpl="vwma.rs.tpl", doc="methods::VWMA"),
+    "wma": dict(tpl="wma.rs.tpl", doc="methods::WMA"),
     "mean_abs_dev": dict(tpl="mean_abs_dev.rs.tpl", doc="methods::{MeanAbsDev, CCI}"),
     "simple_window": dict(tpl="simple_window.rs.tpl", doc="methods::{Momentum, Derivative, RateOfChange, Past, Integral}"),
     "sma": dict(tpl="sma.rs.tpl", doc="methods::SMA"),
@@ -41,5 +45,18 @@ PROPS = {
                      "Iterator/Index/From impls are checked as inherent fns with the same bodies (R12)"],
     ),
 }
+
+C02_UNITS = ["window", "sma", "simple_window", "wma", "vwma", "st_dev", "mean_abs_dev", "compose_ma"]
+
+PROPS["C02"] = dict(
+    verus=C02_UNITS,
+    claim=("For each method under contract, new establishes the representation invariant and next preserves it and returns the documented "
+           "formula as a spec function of the abstract window contents (the last `length` inputs, construction value first), for every "
+           "length the constructor accepts, every stream and every position: induction over next, decided by Verus over exact reals."),
+    assumptions=[REALS,
+                 "sqrt is uninterpreted except r>=0 and r*r==x for x>=0 (axiom_sqrt); cloning a pair of values yields an equal pair (axiom_pair_clone)",
+                 "std::slice::Iter is modelled by prelude SliceIt (verified exec code); iterator adapters are desugared by rule R8 to loops over next()",
+                 "methods not listed in coverage.functions_under_contract are not covered by this claim"],
+)
 
 NOT_BUILT = {}
